@@ -42,7 +42,7 @@ def _run_once(chk):
         c.pop("meta", None)
         d = c.get("d") or b"-"
         if mode in ("chars", "lines"):
-            alpha = ["a", "é", "😎", "\0", "\r", "b"]
+            alpha = ["a", "é", "😎", "\0", "\r", "b", "\u010a", "\u0100", "\u4e0a", "\u4e00"]
             recs = ["".join(rng.choice(alpha) for _ in range(rng.randint(0, 4))).encode() for _ in range(rng.randint(1, 4))]
             if mode == "lines" and rng.random() < 0.15:
                 k = rng.randrange(len(recs))
@@ -93,7 +93,7 @@ def cli_part(chk):
             continue
         bt = c.get("bt", "f")
         if bt in ("c", "l"):
-            alpha = ["a", "é", "😎", "\0", "\r", "b", " "]
+            alpha = ["a", "é", "😎", "\0", "\r", "b", " ", "\u010a", "\u0100", "\u4e0a", "\u4e00"]
             recs = ["".join(rng.choice(alpha) for _ in range(rng.randint(0, 4))).encode() for _ in range(rng.randint(1, 5))]
         elif bt == "b":
             recs = [bytes(rng.choice([0, 10, 13, 97, 255, 45]) for _ in range(rng.randint(0, 5))) for _ in range(rng.randint(1, 3))]
